@@ -92,6 +92,9 @@ type playDef struct {
 	SigAtMs int
 	// SigAfter: if set, SigAtMs counts from the moment the ledger shows this action started
 	SigAfter string
+	// JustBefore: the "just before the slot" play (see genJustBefore): re-run when every
+	// predecessor overran its slot
+	JustBefore bool
 	// Rdv: the actions of the (single) scene group rendezvous: all of them must run at the same time
 	Rdv bool
 	// fault descriptor (C07)
@@ -836,6 +839,68 @@ func genRendezvous(name string) *playDef {
 	return p
 }
 
+// genJustBefore: deterministic "just before the slot" play.  tempo 1.5 s (1% = 15 ms),
+// storyline `a pqrstu`.  Act 1 (`a`, 1.05 tempo > its slot) ends late, so act 2 starts
+// right when a ends.  The action of column k of act 2 reads a's end from the ledger
+// and sleeps until (a's end + (k+1) x tempo - X_k), X_k = 5, 7, 9, 11, 13 ms: it ends a
+// few ms before the slot of column k+1, whose action must nevertheless not start before
+// act start + (k+1) x tempo >= (recorded end of a) + (k+1) x tempo.
+var justBeforeX = []int{5, 7, 9, 11, 13}
+
+const justBeforeTempoMs = 1500
+
+func genJustBefore(name string) *playDef {
+	p := &playDef{Name: name, Spot: map[string]string{}, RoleOf: map[string]string{}, JustBefore: true}
+	p.Roles = []string{"r1"}
+	p.Actors = []string{"x1"}
+	p.RoleOf["x1"] = "r1"
+	p.TempoMs = justBeforeTempoMs
+	p.Actions = []actionDef{{Name: "a0s0", DurMs: justBeforeTempoMs * 105 / 100}}
+	p.Scenes = []sceneDef{{"a", []entailDef{{"x1", []stepDef{{"a0s0", false}}}}}}
+	story := "a "
+	chars := "pqrstu"
+	for k := 0; k < len(chars); k++ {
+		ch := chars[k : k+1]
+		name := ch + "0s0"
+		ad := actionDef{Name: name, DurMs: 0}
+		if k < len(justBeforeX) {
+			ad.Extra = fmt.Sprintf(`ae=$(grep " A a0s0 1 E " $LEDGER | tail -1 | cut -d" " -f6); d=$((ae + %d*%d000000 - %d000000 - $(date +%%s%%N))); if [ $d -gt 0 ]; then sleep $(printf "%%d.%%09d" $((d/1000000000)) $((d%%1000000000))); fi; `,
+				k+1, justBeforeTempoMs, justBeforeX[k])
+		}
+		p.Actions = append(p.Actions, ad)
+		p.Scenes = append(p.Scenes, sceneDef{ch, []entailDef{{"x1", []stepDef{{name, false}}}}})
+		story += ch
+	}
+	p.Story = []string{story}
+	return p
+}
+
+// justBeforeHits: how many predecessors ended inside the last 1% of the tempo before
+// the next slot (counted from a's end, the lower bound of the act's start).  None
+// (machine load): the play says nothing about the window and is worth another try.
+func justBeforeHits(o *observation) int {
+	var aEnd int64
+	for _, r := range o.Ledger {
+		if r.Action == "a0s0" {
+			aEnd = r.End
+		}
+	}
+	hits := 0
+	for _, r := range o.Ledger {
+		k := strings.Index("pqrstu", r.Action[:1])
+		if k < 0 || k >= len(justBeforeX) || r.End <= 0 || aEnd <= 0 {
+			continue
+		}
+		slot := aEnd + int64(k+1)*justBeforeTempoMs*1000000
+		if r.End < slot && r.End > slot-justBeforeTempoMs*10000 {
+			hits++
+		}
+	}
+	return hits
+}
+
+func justBeforeMissed(o *observation) bool { return justBeforeHits(o) == 0 }
+
 // genFanoutFail: a group of 3-4 concurrent lines (`a+b+c d`), the non-tolerated failing
 // one being the SLOWEST (it reports its failure after the others reported success),
 // followed by a group that must not be played.
@@ -1025,6 +1090,30 @@ func genC07(rng *rand.Rand, tier string) []*playDef {
 			}
 			add(p, name, fmt.Sprintf("%dms", p.SigAtMs))
 		}
+	}
+	// 6b. a signal while an action (3 s: it ends by itself, far below the 60 s hard limit) is
+	// running: the later stages report nil before the prompter does; with and without spotlights.
+	// 6c. a spotlight whose leader ignores SIGHUP, the play being ended by a signal: it must
+	// be killed after the grace period.
+	for _, sig := range []int{int(syscall.SIGINT), int(syscall.SIGTERM)} {
+		sname := map[int]string{int(syscall.SIGINT): "sigint", int(syscall.SIGTERM): "sigterm"}[sig]
+		for _, spots := range []bool{true, false} {
+			p := baseC07("")
+			p.action("a0s0").DurMs = 3000
+			p.Sig, p.SigAtMs, p.SigAfter = sig, 400+rng.Intn(400), "a0s0"
+			f := "signal-during-action"
+			if !spots {
+				p.SpotKind = 0
+				p.Audience = nil
+				f = "signal-during-action-no-spotlights"
+			}
+			add(p, f, sname)
+		}
+		p := baseC07("")
+		p.Spot["x2"] = "trap \"\" HUP; exec sleep 300"
+		p.SpotKind = 4
+		p.Sig, p.SigAtMs = sig, 150+rng.Intn(300)
+		add(p, "spotlight-ignores-hup-leader-signal", sname)
 	}
 	// 7. commands that outlive their scene (sleep 300) while the play is stopped:
 	// the known finding "running-action-or-cleanup-not-interruptible" makes these slow
@@ -1256,7 +1345,8 @@ func coqLedgerCase(c *caseOut) string {
 var faultKinds = []string{"none", "action-fails", "spotlight-fails", "spotlight-ignores-hup-leader", "spotlight-ignores-hup-child",
 	"spotlight-ignores-hup-bgchild", "cleanup-fails-1", "cleanup-fails-2", "audit-foul-S", "expr-error", "expr-error-S",
 	"sigint", "sigterm", "action-hangs-sigint", "cleanup-hangs-1", "action-hangs-peer-fails", "action-hangs-sigterm",
-	"cleanup-hangs-2", "action-hangs-spotlight-fails", "action-hangs-audit-foul-S", "spotlight-graceful-hup", "audit-foul-S-chatty-long-action"}
+	"cleanup-hangs-2", "action-hangs-spotlight-fails", "action-hangs-audit-foul-S", "spotlight-graceful-hup", "audit-foul-S-chatty-long-action",
+	"signal-during-action", "signal-during-action-no-spotlights", "spotlight-ignores-hup-leader-signal"}
 
 func faultIdx(f string) int {
 	for i, k := range faultKinds {
@@ -1359,6 +1449,8 @@ func main() {
 				p = genFanoutFail(rng, fmt.Sprintf("c05-%d-fanout", i), i/8)
 			case *prop == "c04" && (i == n-1 || i%100 == 99):
 				p = genRendezvous(fmt.Sprintf("c04-%d-rendezvous", i))
+			case *prop == "c04" && (i == n-2 || i%100 == 98):
+				p = genJustBefore(fmt.Sprintf("c04-%d-just-before-the-slot", i))
 			}
 			if p != nil {
 				var errs string
@@ -1407,8 +1499,8 @@ func main() {
 		order[i] = i
 	}
 	sort.SliceStable(order, func(a, b int) bool {
-		sa := strings.Contains(cases[order[a]].Def.Fault, "hangs")
-		sb := strings.Contains(cases[order[b]].Def.Fault, "hangs")
+		sa := strings.Contains(cases[order[a]].Def.Fault, "hangs") || cases[order[a]].Def.JustBefore
+		sb := strings.Contains(cases[order[b]].Def.Fault, "hangs") || cases[order[b]].Def.JustBefore
 		return sa && !sb
 	})
 	var wg sync.WaitGroup
@@ -1421,6 +1513,9 @@ func main() {
 			defer func() { <-sem }()
 			c := cases[i]
 			c.Obs, c.Cfg = runPlay(*shk, c.Def, i)
+			for try := 0; c.Def.JustBefore && try < 2 && justBeforeMissed(&c.Obs); try++ {
+				c.Obs, c.Cfg = runPlay(*shk, c.Def, i)
+			}
 			c.index()
 		}(i)
 	}
@@ -1459,6 +1554,10 @@ func main() {
 			}
 			if strings.Contains(strings.Join(c.Def.Story, " "), "+.") || strings.Contains(strings.Join(c.Def.Story, " "), ".+") {
 				dist["plays-with-dot-inside-a-group"]++
+			}
+			if c.Def.JustBefore {
+				dist["just-before-the-slot-plays"]++
+				dist["just-before-the-slot-predecessors-ended-inside-the-last-1-percent"] += justBeforeHits(&c.Obs)
 			}
 			if c.Def.Rdv {
 				dist[fmt.Sprintf("rendezvous-of-%d-lines", len(c.Def.Actors))]++
